@@ -64,9 +64,16 @@ def transforms_of(sc):
     scales = [s[0] / s[1] for s in sc["s"]]
     fs = sc["fs"][0] / sc["fs"][1]
     which = sc.get("which", "all")
-    return make_transforms(scales if which in ("all", "vars", "scal") else None,
-                           [float(o) for o in sc["o"]] if which in ("all", "vars", "offs") else None,
-                           [fs] if which in ("all", "obj") else None, [fs] if which in ("all", "con") else None)
+    tr = make_transforms(scales if which in ("all", "vars", "scal") else None,
+                         [float(o) for o in sc["o"]] if which in ("all", "vars", "offs") else None,
+                         [fs] if which in ("all", "obj") else None, [fs] if which in ("all", "con") else None)
+    if which in ("all", "vars", "scal") and all(s[1] == 1 for s in sc["s"]) and sum(sc["x"]) % 2 == 0:
+        # whole-number scales (and offsets) spelled as INTEGER arrays: the same transform
+        from ropt.transforms import OptModelTransforms, VariableScaler
+        tr = OptModelTransforms(variables=VariableScaler(np.array([s[0] for s in sc["s"]], dtype=np.int64),
+                                                         np.array(sc["o"], dtype=np.int64) if which in ("all", "vars") else None),
+                                objectives=tr.objectives, nonlinear_constraints=tr.nonlinear_constraints)
+    return tr
 
 
 def run(sc, transforms):
